@@ -66,6 +66,10 @@ def cases(tier, rng):
         for ch in "%+/Z0":
             lines.append("cs %s c39 1 0 %s" % (sizes(rng, 2000), J.hx(ch * L)))
         lines.append("cs %s c39 1 0 %s" % (sizes(rng, 2000), J.hx("".join(rng.choice("0123456789ABCDEFGHIJKLMNOPQRSTUVWXYZ-. $/+%") for _ in range(L)))))
+    # wrapped lengths and low-byte runes for EAN (lib/gaps.py): a symbol that should not exist has no check value
+    import gaps
+    for t in gaps.ean_wrap(rng, "quick")[:12] + gaps.ean_low_byte(rng)[:40]:
+        lines.append("cs - ean %s" % J.hx(t))
     # the same contract through the WithColor entry points (configurations): the scaled barcode of a
     # coloured checksum barcode still reports the check value
     base = [l for l in lines if l.startswith("cs ")]
